@@ -89,7 +89,7 @@ def enum_action(tier):
                 for t in range(len(TERMS)):
                     yield ('action', cfg, atoms, t)
         # thorough: one more atom with the plain terminator only, and 5 atoms over the structural subset
-        if thorough:
+        if thorough and ci in (0, 2):
             for atoms in itertools.product(alpha, repeat=4):
                 yield ('action', cfg, atoms, 0)
     if thorough:
